@@ -167,13 +167,18 @@ def ref_parse_path(s):
     """Harness-side reading of a path string, used ONLY to decide which
     iterated-derivation tables to attach (candidate index lists)."""
     toks = s.split("/")
+    while len(toks) > 1 and toks[-1] == "":
+        toks.pop()                         # trailing '/'
     out = []
     for t in toks[1:]:
         hard = t[-1:] in ("'", "h")
         body = t[:-1] if hard else t
-        if not body or not all("0" <= c <= "9" for c in body):
+        try:
+            v = int(body)                  # Python's own numeral grammar (blanks around, '+', '_' between digits)
+        except ValueError:
             return None
-        v = int(body)
+        if v < 0:
+            return None
         if v >= 2 ** 32 or (hard and v >= 2 ** 31):
             return None
         out.append(v + (2 ** 31 if hard else 0))
@@ -458,6 +463,11 @@ def ExtParse(inp, tab, ev):
         s = untext(inp["s"])
         arg = s
         body = R.b58check_body(s)
+    elif inp["form"] == "stream-offset":
+        buf = bytes(inp["s"])
+        body = buf[inp["offset"]:inp["offset"] + 78]
+        arg = BytesIO(buf)
+        arg.seek(inp["offset"])
     else:
         body = bytes(inp["s"])
         arg = body if inp["form"] == "bytes" else BytesIO(body)
@@ -474,6 +484,8 @@ def ExtParse(inp, tab, ev):
         except Exception:
             again = "ERR"
         d["again"] = T(again)
+        if inp["form"] == "stream-offset":
+            d["pos"] = arg.tell()
         return d
     if ok:
         ok, n = call(view, n)       # a node whose key cannot be used counts as a failed parse
@@ -611,6 +623,24 @@ def Addr(inp, tab, ev):
     if ok:
         emitted_address_oracle(tab, v)
     ev["res"] = res_of(ok, v, T)
+
+
+@act
+def AddrSeq(inp, tab, ev):
+    from btc_hd_wallet.keys import PublicKey
+    from . import refwallet as W
+    K = bytes(inp["K"])
+    for st in inp["steps"]:
+        W.ref_addr(tab, st["kind"], K if st["compressed"] else tab.uncompress(K), inp["net"])
+
+    def go():
+        pk = PublicKey.parse(K)                      # ONE object for the whole sequence
+        return [pk.address(compressed=st["compressed"], testnet=inp["net"] == "test", addr_type=st["kind"]) for st in inp["steps"]]
+    ok, v = call(go)
+    if ok:
+        for a in v:
+            emitted_address_oracle(tab, a)
+    ev["res"] = res_of(ok, v, lambda l: [T(a) for a in l])
 
 
 @act
